@@ -7,7 +7,7 @@ import re
 
 from engine.expr import Ex, norm, show, walk, alts
 from engine.mir import AnchorLost, callee_matches
-from engine.query import calls_matching, where, aggregates, ret_alts
+from engine.query import self_rooted, calls_matching, where, aggregates, ret_alts
 from rules.C01 import patch_rules, ZW
 from rules.shared_codec import tokens
 from rules.shared_zip64 import const_val
@@ -95,7 +95,7 @@ def raw_rules(facts, rep):
     cp = calls_matching(rc, r"^std::io::copy$")
     sets = []
     for bi, si, s in rc.stmts():
-        if s["k"] == "assign" and s["place"]["l"] == 1:
+        if s["k"] == "assign" and self_rooted(rc, s["place"], None, (bi, si)):
             fp = [p.get("n") for p in s["place"]["p"] if p["k"] == "field"]
             if fp in (["writing_raw"], ["writing_to_file"]) and s["rv"]["k"] == "use" and s["rv"]["op"].get("v") is not None:
                 sets.append((fp[0], int(s["rv"]["op"]["v"]), bi))
